@@ -161,10 +161,13 @@ pub fn record(seed: u64, tier: &str, out: &str) {
     wide_type!(usize, t, "usize", false, &mut rng, draws);
     // half-open float ranges
     let franges: Vec<(f64, f64)> = vec![(0.0, 1.0), (1.0, 2.0), (10.0, 15.0), (-15.0, -10.0), (-1e-300, 1e-300), (0.0, f64::MAX / 2.0),
-                                        (-0.0, 5e-324), (1e300, 1.0000000000000002e300), (-1.0, 1.0), (0.1, 0.7), (-3.5, 0.0), (4503599627370496.0, 4503599627370497.0)];
+                                        (-0.0, 5e-324), (1e300, 1.0000000000000002e300), (-1.0, 1.0), (0.1, 0.7), (-3.5, 0.0), (4503599627370496.0, 4503599627370497.0),
+                                        // finite ranges whose length is not finite (end - start overflows)
+                                        (-1e308, 1e308), (-f64::MAX, f64::MAX), (-f64::MAX, 1.0), (-1.5e308, 1e300), (-f64::MAX, 0.0), (0.0, f64::MAX),
+                                        (-5e-324, 5e-324), (f64::MIN_POSITIVE, 2.0 * f64::MIN_POSITIVE)];
     for (a, b) in franges {
         let mut raws: Vec<u64> = vec![0, 1, u64::MAX, u64::MAX - 1, u64::MAX - 2, u64::MAX - 1023, u64::MAX - 1024, u64::MAX - 2047, u64::MAX - 2048, u64::MAX - 4096,
-                                      1 << 53, (1 << 53) - 1, (1 << 53) + 1, 1 << 63, (1 << 63) + 1, (1u64 << 63) - 1, 1 << 62, 3 << 62];
+                                      1023, 1024, 2047, 2048, 2049, 4095, 1 << 53, (1 << 53) - 1, (1 << 53) + 1, 1 << 63, (1 << 63) + 1, (1u64 << 63) - 1, 1 << 62, 3 << 62];
         for k in 1..=20u64 {
             raws.push(k.wrapping_mul(1 << 53).wrapping_sub(1));
             raws.push(u64::MAX - k * 511);
